@@ -70,6 +70,11 @@ type Sim struct {
 	// unusual behaviour of readers, transports, ...), drawn from the plan tape.
 	Knobs map[string]int
 
+	// Panicked is set when a handler of the code under test panicked: it may
+	// have died holding the cache mutex, so nothing may touch the cache any
+	// more (the oracles skip it, the scenario ends the run).
+	Panicked bool
+
 	Inert bool // an enclosing run that only collects results of sub-runs: nothing ever parks in it
 
 	StepHook func(s *Sim) // evaluated at every quiescent point before a release
